@@ -27,17 +27,14 @@ def decodeOp (v : Val) : Option (ReOp ℚ) := do
 def encodeStep (s : ReStep ℚ) : Val :=
   .list [match s.err with | none => .str "ok" | some e => e.toVal, Val.ofBool s.returnsSelf, encodeObj s.obj]
 
-/-- `c06_history <obj> <reverse mode: code|spec> <swap mode: code|spec> <ops>` → one
-    `[status, returns_self, obj]` per call.
+/-- `c06_history <obj> <ops>` → one `[status, returns_self, obj]` per call.
     `c06_checkdir <tok> <pardim>` → index or `err:ValueError`. -/
 def handle : Handler
-  | "c06_history", [ov, mv, msv, opsv] => some <| Id.run do
+  | "c06_history", [ov, opsv] => some <| Id.run do
       let some o := decodeObj ov | return bad
-      let some mode := mv.toStr? | return bad
-      let some smode := msv.toStr? | return bad
       let some ol := opsv.toList? | return bad
       let some ops := ol.mapM decodeOp | return bad
-      return .list ((runReHistory (mode == "spec") (smode == "spec") o ops).map encodeStep)
+      return .list ((runReHistory o ops).map encodeStep)
   | "c06_checkdir", [tv, pv] => some <| Id.run do
       let some t := decodeTok tv | return bad
       let some pd := pv.toNat? | return bad
